@@ -230,6 +230,221 @@ Proof.
   apply dedup_addrs_In. split; auto.
 Qed.
 
+(** ** MsgWriteScope on an existing scope with the value-owner fields *)
+Lemma opt_z_eqb_refl : forall a, opt_z_eqb a a = true.
+Proof. intros [a|]; cbn; [apply Z.eqb_refl|reflexivity]. Qed.
+
+Lemma owners_unchanged_eq : forall l1 l2, owners_unchanged l1 l2 = equal_parties l1 l2.
+Proof. reflexivity. Qed.
+
+(** for duplicate-free stored owners "unchanged" is symmetric: the two lists are equal as sets *)
+Lemma party_eqb_eq : forall p q, party_eqb p q = true <-> p = q.
+Proof.
+  intros [a r o] [a' r' o']. unfold party_eqb. cbn. rewrite !andb_true_iff, !Z.eqb_eq, eqb_true_iff.
+  split; [intros [[-> ->] ->]; reflexivity|intros H; injection H; auto].
+Qed.
+
+Lemma owners_unchanged_sym : forall l1 l2,
+  NoDup l1 -> owners_unchanged l1 l2 = true -> forall p, In p l2 <-> In p l1.
+Proof.
+  intros l1 l2 Hnd H. unfold owners_unchanged in H. apply andb_prop in H as [Hlen Hall].
+  apply Nat.eqb_eq in Hlen. rewrite forallb_forall in Hall.
+  assert (Hincl : incl l1 l2).
+  { intros p Hp. specialize (Hall p Hp). apply existsb_exists in Hall as (q & Hq & He).
+    apply party_eqb_eq in He. now subst. }
+  assert (Hincl' : incl l2 l1).
+  { apply NoDup_length_incl; auto. rewrite Hlen. constructor. }
+  intros p. split; [apply Hincl'|apply Hincl].
+Qed.
+
+Definition vo_check (e : env) (ex pr : scope_view) (signers : list Z) : option (list Z) :=
+  match sv_vo pr with
+  | None => Some []
+  | Some p => validate_value_owners_signers e (match sv_vo ex with Some v => [v] | None => [] end) p signers
+  end.
+
+(** the model's answer with the shortcut written in the vocabulary of the documented rule *)
+Definition wsf (e : env) (ex pr : scope_view) (roles signers : list Z) : bool :=
+  parties_basic (sv_owners pr) && optional_parties_ok (sv_rollup pr) (sv_owners pr) &&
+  match (if doc_only_vo ex pr then Some []
+         else if validate_roles_present (sv_owners pr) roles && prov_role_ok e (sv_owners pr) then
+           if negb (sv_rollup ex) then
+             if negb (nothing_changes ex pr)
+             then option_map used_signers
+                    (validate_all_required_signed e (party_addrs (sv_owners ex)) signers)
+             else Some []
+           else option_map used_signers
+                  (validate_all_required_parties_signed e (sv_owners ex) (sv_owners ex) roles signers)
+         else None) with
+  | None => false
+  | Some used1 =>
+      match vo_check e ex pr signers with
+      | None => false
+      | Some used2 => validate_smart_contract_signers e (used2 ++ used1) signers
+      end
+  end.
+
+Lemma scope_equals_same_vo : forall ex pr v,
+  scope_equals (with_vo ex v) (with_vo pr v) = negb (other_change ex pr).
+Proof.
+  intros ex pr v. unfold scope_equals, other_change. cbn [with_vo sv_spec sv_owners sv_data sv_vo sv_rollup].
+  rewrite opt_z_eqb_refl, negb_involutive.
+  change (owners_unchanged (sv_owners ex) (sv_owners pr)) with (equal_parties (sv_owners ex) (sv_owners pr)).
+  change (data_unchanged (sv_data ex) (sv_data pr)) with (equiv_data (sv_data ex) (sv_data pr)).
+  destruct (Z.eqb _ _), (equal_parties _ _), (equiv_data _ _), (eqb _ _); reflexivity.
+Qed.
+
+Lemma write_scope_full_accept : forall e ex pr roles signers,
+  outer_accept e (OWriteScopeFull ex pr roles) signers = wsf e ex pr roles signers.
+Proof.
+  intros e ex pr roles signers. unfold wsf, vo_check, doc_only_vo, nothing_changes, vo_changing.
+  cbn [outer_accept]. destruct pr as [ps po pd [p|] pru]; cbn [sv_vo sv_owners sv_rollup].
+  - destruct ex as [es eo ed [v|] eru]; cbn [sv_vo sv_owners sv_rollup].
+    + rewrite (scope_equals_same_vo {| sv_spec := es; sv_owners := eo; sv_data := ed; sv_vo := Some v; sv_rollup := eru |}
+                                    {| sv_spec := ps; sv_owners := po; sv_data := pd; sv_vo := Some p; sv_rollup := pru |} (Some v)).
+      cbn [andb]. rewrite andb_true_r.
+      assert (HE : scope_equals (with_vo {| sv_spec := es; sv_owners := eo; sv_data := ed; sv_vo := Some v; sv_rollup := eru |} (Some v))
+                                {| sv_spec := ps; sv_owners := po; sv_data := pd; sv_vo := Some p; sv_rollup := pru |}
+                   = negb (negb (opt_z_eqb (Some v) (Some p))) &&
+                     negb (other_change {| sv_spec := es; sv_owners := eo; sv_data := ed; sv_vo := Some v; sv_rollup := eru |}
+                                        {| sv_spec := ps; sv_owners := po; sv_data := pd; sv_vo := Some p; sv_rollup := pru |})).
+      { unfold scope_equals, other_change. cbn [with_vo sv_spec sv_owners sv_data sv_vo sv_rollup].
+        rewrite !negb_involutive.
+        change (owners_unchanged eo po) with (equal_parties eo po).
+        change (data_unchanged ed pd) with (equiv_data ed pd).
+        destruct (Z.eqb es ps), (equal_parties eo po), (equiv_data ed pd), (opt_z_eqb _ _), (eqb eru pru); reflexivity. }
+      rewrite HE. reflexivity.
+    + cbn [andb].
+      assert (HE : scope_equals (with_vo {| sv_spec := es; sv_owners := eo; sv_data := ed; sv_vo := None; sv_rollup := eru |} None)
+                                {| sv_spec := ps; sv_owners := po; sv_data := pd; sv_vo := Some p; sv_rollup := pru |}
+                   = false).
+      { unfold scope_equals. cbn [with_vo sv_spec sv_owners sv_data sv_vo sv_rollup opt_z_eqb].
+        now rewrite andb_false_r. }
+      rewrite HE. reflexivity.
+  - cbn [andb negb].
+    rewrite (scope_equals_same_vo ex {| sv_spec := ps; sv_owners := po; sv_data := pd; sv_vo := None; sv_rollup := pru |} None)
+      || idtac.
+    assert (HE : scope_equals (with_vo ex None) {| sv_spec := ps; sv_owners := po; sv_data := pd; sv_vo := None; sv_rollup := pru |}
+                 = negb (other_change ex {| sv_spec := ps; sv_owners := po; sv_data := pd; sv_vo := None; sv_rollup := pru |})).
+    { exact (scope_equals_same_vo ex {| sv_spec := ps; sv_owners := po; sv_data := pd; sv_vo := None; sv_rollup := pru |} None). }
+    rewrite HE. destruct (sv_vo ex); reflexivity.
+Qed.
+
+Lemma vo_check_sound : forall e ex pr signers used2,
+  vo_check e ex pr signers = Some used2 ->
+  (forall a, In a (vo_required ex pr) -> covered e (vo_signers e signers) a) /\
+  (forall s, In s used2 -> exists a, In a (vo_required ex pr) /\ (a = s \/ granted e a s = true)).
+Proof.
+  intros e ex pr signers used2 H. unfold vo_check in H. unfold vo_required, vo_changing.
+  destruct (sv_vo pr) as [p|].
+  - destruct (sv_vo ex) as [v|]; cbn [opt_z_eqb].
+    + destruct (Z.eqb_spec v p) as [->|Hne]; cbn [negb].
+      * unfold validate_value_owners_signers in H. rewrite Z.eqb_refl in H. injection H as <-.
+        split; [intros a []|intros s []].
+      * unfold validate_value_owners_signers in H.
+        destruct (Z.eqb_spec v p) as [Heq|_]; [contradiction|].
+        destruct (vo_loop_sound _ _ _ _ _ H) as [H1 H2]. split.
+        -- intros a [<-|[]]. apply H1; [now left|exact Hne].
+        -- intros s Hs. destruct (H2 s Hs) as (_ & x & Hx & Hor). exists x. auto.
+    + cbn in H. injection H as <-. split; [intros a []|intros s []].
+  - injection H as <-. split; [intros a []|intros s []].
+Qed.
+
+Lemma vo_check_direct : forall e ex pr signers,
+  (forall a, In a (vo_required ex pr) -> In a (vo_signers e signers)) ->
+  exists u, vo_check e ex pr signers = Some u.
+Proof.
+  intros e ex pr signers H. unfold vo_check. unfold vo_required, vo_changing in H.
+  destruct (sv_vo pr) as [p|]; [|eauto].
+  destruct (sv_vo ex) as [v|]; cbn [opt_z_eqb] in H.
+  - unfold validate_value_owners_signers. cbn [vo_loop].
+    destruct (Z.eqb v p) eqn:He; [eauto|]. cbn [negb] in H.
+    assert (Hm : mem v (vo_signers e signers) = true) by (apply mem_In, H; now left).
+    rewrite Hm. cbn. eauto.
+  - cbn. eauto.
+Qed.
+
+Lemma wsf_inv : forall e ex pr roles signers,
+  wsf e ex pr roles signers = true ->
+  exists used1 used2,
+    vo_check e ex pr signers = Some used2 /\
+    validate_smart_contract_signers e (used2 ++ used1) signers = true /\
+    ((doc_only_vo ex pr = true /\ used1 = []) \/
+     (doc_only_vo ex pr = false /\ validate_roles_present (sv_owners pr) roles = true /\
+      prov_role_ok e (sv_owners pr) = true /\
+      ((sv_rollup ex = true /\ exists ds,
+          validate_all_required_parties_signed e (sv_owners ex) (sv_owners ex) roles signers = Some ds /\
+          used1 = used_signers ds) \/
+       (sv_rollup ex = false /\ nothing_changes ex pr = true /\ used1 = []) \/
+       (sv_rollup ex = false /\ nothing_changes ex pr = false /\ exists ds,
+          validate_all_required_signed e (party_addrs (sv_owners ex)) signers = Some ds /\
+          used1 = used_signers ds)))).
+Proof.
+  intros e ex pr roles signers H. unfold wsf in H. apply andb_prop in H as [_ H].
+  destruct (doc_only_vo ex pr) eqn:Hov.
+  - destruct (vo_check e ex pr signers) as [u2|]; [|discriminate]. exists [], u2. auto.
+  - destruct (validate_roles_present (sv_owners pr) roles) eqn:Hr; [|discriminate].
+    destruct (prov_role_ok e (sv_owners pr)) eqn:Hp; [|discriminate]. cbn [andb] in H.
+    destruct (sv_rollup ex) eqn:Hru; cbn [negb] in H.
+    + destruct (validate_all_required_parties_signed e (sv_owners ex) (sv_owners ex) roles signers)
+        as [ds|] eqn:HV; [|discriminate]. cbn [option_map] in H.
+      destruct (vo_check e ex pr signers) as [u2|]; [|discriminate].
+      exists (used_signers ds), u2. split; auto. split; auto. right. repeat split; auto. left. eauto.
+    + destruct (nothing_changes ex pr) eqn:Hn; cbn [negb] in H.
+      * destruct (vo_check e ex pr signers) as [u2|]; [|discriminate].
+        exists [], u2. split; auto. split; auto. right. repeat split; auto.
+      * destruct (validate_all_required_signed e (party_addrs (sv_owners ex)) signers) as [ds|] eqn:HV;
+          [|discriminate]. cbn [option_map] in H.
+        destruct (vo_check e ex pr signers) as [u2|]; [|discriminate].
+        exists (used_signers ds), u2. split; auto. split; auto. right. repeat split; auto.
+        right. right. eauto.
+Qed.
+
+Lemma write_scope_full_sound : forall e ex pr roles signers,
+  outer_accept e (OWriteScopeFull ex pr roles) signers = true ->
+  (forall a, In a (doc_required_addrs (OWriteScopeFull ex pr roles)) -> covered e signers a) /\
+  (forall avail rs, doc_role_pool (OWriteScopeFull ex pr roles) = Some (avail, rs) ->
+     role_assignment (covered e signers) avail rs).
+Proof.
+  intros e ex pr roles signers H. rewrite write_scope_full_accept in H.
+  destruct (wsf_inv _ _ _ _ _ H) as (u1 & u2 & HV & _ & Hor).
+  destruct (vo_check_sound _ _ _ _ _ HV) as [Hvo _].
+  assert (Hvo' : forall a, In a (vo_required ex pr) -> covered e signers a).
+  { intros a Ha. eapply covered_incl; [|apply Hvo; exact Ha]. apply vo_signers_incl. }
+  cbn [doc_required_addrs doc_role_pool].
+  destruct Hor as [[Hov _]|(Hov & _ & _ & Hor)]; rewrite Hov.
+  - split; [|discriminate]. intros a Ha. rewrite app_nil_r in Ha. auto.
+  - destruct Hor as [(Hru & ds & HVP & _)|[(Hru & Hn & _)|(Hru & Hn & ds & HVS & _)]]; rewrite Hru.
+    + destruct (parties_signed_sound _ _ _ _ _ _ HVP) as [H1 H2]. split.
+      * intros a Ha. apply in_app_or in Ha as [Ha|Ha]; auto. now apply (nonopt_cover _ _ _ H1).
+      * intros avail rs Heq. injection Heq as <- <-. exact H2.
+    + rewrite Hn. split; [|discriminate]. intros a Ha. rewrite app_nil_r in Ha. auto.
+    + rewrite Hn. split; [|discriminate]. intros a Ha. apply in_app_or in Ha as [Ha|Ha]; auto.
+      eapply required_signed_sound; [exact HVS|]. now apply all_addrs_party_addrs.
+Qed.
+
+(** Any difference in the owner list (address, role or OPTIONAL flag) of a rollup scope brings the
+    party rules back, whatever happens to the value owner in the same message. *)
+Lemma scope_write_owner_change_needs_signatures : forall e ex pr roles signers,
+  outer_accept e (OWriteScopeFull ex pr roles) signers = true ->
+  owners_unchanged (sv_owners ex) (sv_owners pr) = false ->
+  (sv_rollup ex = true ->
+     (forall p, In p (sv_owners ex) -> p_opt p = false -> covered e signers (p_addr p)) /\
+     role_assignment (covered e signers) (sv_owners ex) roles) /\
+  (sv_rollup ex = false -> forall p, In p (sv_owners ex) -> covered e signers (p_addr p)).
+Proof.
+  intros e ex pr roles signers H Hch.
+  destruct (write_scope_full_sound _ _ _ _ _ H) as [Hreq Hpool].
+  assert (Hoc : other_change ex pr = true).
+  { unfold other_change. rewrite Hch. now rewrite andb_false_r. }
+  assert (Hov : doc_only_vo ex pr = false) by (unfold doc_only_vo; rewrite Hoc; now rewrite andb_false_r).
+  assert (Hn : nothing_changes ex pr = false) by (unfold nothing_changes; rewrite Hoc; now rewrite andb_false_r).
+  cbn [doc_required_addrs doc_role_pool] in Hreq, Hpool. rewrite Hov in Hreq, Hpool. split; intros Hru; rewrite Hru in *.
+  - split; [|now apply Hpool]. intros p Hp Ho. apply Hreq. apply in_or_app. right.
+    apply nonopt_addrs_In. eauto.
+  - rewrite Hn in Hreq. intros p Hp. apply Hreq. apply in_or_app. right. unfold all_addrs. now apply in_map.
+Qed.
+
 Theorem outer_sound : forall e op signers,
   outer_accept e op signers = true ->
   (forall a, In a (doc_required_addrs op) -> covered e signers a) /\
@@ -245,7 +460,9 @@ Proof.
     |rollup owners session old roles
     |rollup owners roles
     |rollup owners roles
-    |vos proposed]; cbn [outer_accept doc_required_addrs doc_role_pool] in *.
+    |vos proposed
+    |ex pr roles]; try (now apply write_scope_full_sound);
+    cbn [outer_accept doc_required_addrs doc_role_pool] in *.
   - split; [intros a []|discriminate].
   - apply andb_prop in H as [_ H]. destruct ex_rollup; cbn [negb] in H.
     + destruct (validate_all_required_parties_signed e existing existing roles signers) as [ds|] eqn:HV;
